@@ -36,8 +36,11 @@ def candidates(rng, n):
             named = rng.random() < 0.4
             ty = rng.choice(DEFAULT_INNER)
             dv = variant("Other", "named" if named else "tuple", [field(ty, rng.choice(SC.FIELD_NAMES) if named else "")], default=True)
-            if rng.random() < 0.15:
+            r = rng.random()
+            if r < 0.15:
                 dv["ts"] = [core.cp("fallback")]            # default WITH to_string: prints the literal, not the inner value
+            elif r < 0.4:
+                dv["ser"] = [core.cp("ident"), core.cp("id")][: rng.choice([1, 2])]    # serialize only: still forwards to the inner value
             vs.insert(rng.randint(0, len(vs)), dv)
         # transparent variants
         for j in range(rng.choice([0, 1, 1, 2])):
